@@ -126,6 +126,18 @@ func runC18(c *h.Ctx) {
 			}
 		}
 	}
+	// the infallible wrappers are the same encoder / decoder
+	for i := 0; i < 3; i++ {
+		k := &rsaKey(i).PublicKey
+		a, _ := util.MarshalTokenKeyPSSOID(k)
+		var b []byte
+		var k2 *rsa.PublicKey
+		pan, _ := h.Protect(func() { b = util.MustMarshalPublicKey(k); k2 = util.MustUnmarshalPublicKey(b) })
+		c.Count("marshal:must-wrappers", 1, fmt.Sprint(i))
+		if pan || !bytes.Equal(a, b) || k2 == nil || k2.N.Cmp(k.N) != 0 || k2.E != k.E {
+			c.Violation("MustMarshalPublicKey / MustUnmarshalPublicKey are the RSASSA-PSS token key encoder / decoder", map[string]any{"key": i})
+		}
+	}
 	for _, bits := range []int{2040, 2041, 2047, 2048, 2049, 3071, 3072, 4095, 4096} { // common sizes and their neighbours
 		for pat := 0; pat < 3; pat++ {
 			n := c18Modulus(c, bits, pat)
